@@ -395,6 +395,8 @@ class C16(Prop):
                         sig = "zero-sign" if only_zero_sign_differs(sent, h.objs) else "other"
                         fails.append(("operate-after-unfaithful-select/" + sig,
                                       "OPERATE written although the SELECT echo differs from the request: " + where))
+                        if sig == "zero-sign":
+                            select_ok[pre_running] = True      # reported here, under its own signature
                     else:
                         select_ok[pre_running] = True
                     if operate_tx[2:] != pre.objs or (operate_tx[0] & 15) != ((pre.seq + 1) & 15) or operate_tx[0] & 0xF0 != 0xC0:
@@ -542,6 +544,7 @@ class C16(Prop):
                 step_start = None
             if starts:
                 step_start = (t, w)
+        fails += tr.errors[:1]
         if step_start is not None and last_t - step_start[0] > timeout and not stopped:
             fails.append(("bounded-steps", "a protocol step started at %d ms never ended (trace ends at %d ms)" % (step_start[0], last_t)))
         return fails
